@@ -265,6 +265,11 @@ func (a *EpochBitmapAllocator) Stats() (allocated, total uint64, utilization flo
 	// Total usable IPs (excluding network and broadcast)
 	usable := a.totalIPs - 2
 
+	// A pool without usable addresses (two slots: network + broadcast) has utilization 0, not 0/0
+	if usable == 0 {
+		return active, usable, 0
+	}
+
 	return active, usable, float64(active) / float64(usable)
 }
 
